@@ -425,3 +425,57 @@ def condnorm(c, memo):
     if k == "fcmp":
         return ir.T("fcmp", c[1], signnorm(c[2], memo), signnorm(c[3], memo))
     return c
+
+
+def unorm(t, memo=None):
+    """bit-exact normal form for mode U: order the operands of the commutative IEEE operations and pull negations out of products/quotients
+    ((-a)*b == -(a*b) bit for bit, including the sign of zero); nothing that could change a result bit is rewritten."""
+    memo = {} if memo is None else memo
+    r = memo.get(t)
+    if r is not None:
+        return r
+    if not (isinstance(t, tuple) and t and isinstance(t[0], str)):
+        return t
+    k = t[0]
+    T = ir.T
+    args = [unorm(x, memo) if isinstance(x, tuple) else x for x in t[1:]]
+    if k in ("fmul", "fdiv"):
+        neg = False
+        a, b = args
+        if a[0] == "fneg":
+            a, neg = a[1], not neg
+        if b[0] == "fneg":
+            b, neg = b[1], not neg
+        if a[0] == "c" and a[1] < 0:
+            a, neg = T("c", -a[1]), not neg
+        if b[0] == "c" and b[1] < 0:
+            b, neg = T("c", -b[1]), not neg
+        if k == "fmul" and repr(a) > repr(b):
+            a, b = b, a
+        one = T("c", Fraction(1))
+        if k == "fmul" and (a == one or b == one):
+            r = b if a == one else a          # x * 1.0 == x bit for bit
+        elif k == "fdiv" and b == one:
+            r = a
+        else:
+            r = T(k, a, b)
+        if neg:
+            r = T("fneg", r)
+    elif k == "fadd":
+        a, b = args
+        if repr(a) > repr(b):
+            a, b = b, a
+        r = T("fadd", a, b)
+    elif k == "fneg" and args[0][0] == "fneg":
+        r = args[0][1]
+    elif k == "fneg" and args[0][0] == "c":
+        r = T("c", -args[0][1])
+    elif k == "fsub" and args[1][0] == "fneg":
+        a, b = args[0], args[1][1]          # a - (-b) == a + b bit for bit
+        if repr(a) > repr(b):
+            a, b = b, a
+        r = T("fadd", a, b)
+    else:
+        r = T(k, *args)
+    memo[t] = r
+    return r
